@@ -109,6 +109,10 @@ def has_float_reassociation(fn):
 # ------------------------------------------------------------------------- (a) kernels
 @st.composite
 def kernel_cases(draw, tier):
+    if draw(st.integers(0, 5)) == 0:
+        c = draw(gen.hollow_cases(value_class="exact"))
+        c["capacity"] = draw(st.sampled_from([1, 2, None]))
+        return c
     c = draw(gen.kernel_cases(max_leaves=4 if tier == "quick" else 5,
                               value_class=draw(st.sampled_from(["general", "exact"])),
                               sparse_output_bias=draw(st.booleans()), min_dim=1))
